@@ -4,8 +4,9 @@ From FunV Require Import Base.Tac Model.SortSpec Model.ListHeap.
 Inductive case :=
 | CIsSorted (id : Z) (ltk : Z) (l : list Z) (obs : bool)
 | CHeap (id : Z) (ltk : Z) (ops : list hop) (obs_pops : list (option Z)) (obs_final : list Z)
-(* SortMerge (alg 0) / SortQuick (alg 1) on the pointer-level model, followed by the usability probe
-   [probe]; obs = |fwd| fwd |bwd| bwd Len allIn ++ the probe's observations *)
+(* SortMerge (alg 0) / SortQuick (alg 1), +2 = applied twice, on the pointer-level model, followed by the
+   handle-identity observations and the usability probe [probe];
+   obs = |fwd| fwd |bwd| bwd Len allIn ++ (value, In) of every pre-sort handle ++ Remove through two handles ++ probe *)
 | CSort (id : Z) (alg ltk : Z) (l : list Z) (obs : list Z)
 (* a heap built by the real NewHeapFromIterator from an iterator that completed / failed / was cancelled:
    [consumed] = the prefix of the source the returned heap holds; then push/pop ops; then a drain *)
@@ -63,14 +64,31 @@ Definition probe (n : nat) : M (list Z) :=
        zlp dr ++ [n5] ++ w6 ++ [n6; i6; j6] ++ [b2z k7; v7; n7])%Z
   )))))))))))))))))))))))))))))))))))).
 
+(* handles kept across the sort: the i-th pushed element is node i+1 (node 0 is the sentinel) *)
+Definition handle_obs (n : nat) : M (list Z) :=
+  get (fun w => flat_map (fun k => [nitem (nodes w k); if ref_eqb (nowner (nodes w k)) (Some 0%nat) then 1 else 0]%Z) (seq 1 n)).
+
+Fixpoint remove_handles (ks : list nat) : M (list Z) :=
+  match ks with
+  | [] => ret []
+  | k :: ks' => bind (Remove (Some k)) (fun b => bind (get (fun w => zlp (fwd_vals w 0))) (fun f =>
+                bind (remove_handles ks') (fun r => ret (b2z b :: f ++ r))))
+  end.
+
+Definition picks (n : nat) : list nat :=
+  match n with O => [] | S O => [1%nat] | _ => [1%nat; S (n / 2)] end.
+
+(* alg: 0 SortMerge, 1 SortQuick, +2 = the sort is applied twice *)
 Definition sort_obs (alg ltk : Z) (l : list Z) : option (list Z) :=
-  let sort := if Z.eqb alg 0 then SortMerge (lt_of ltk) 0%nat else SortQuick (lt_of ltk) 0%nat in
+  let once := if Z.eqb (alg mod 2) 0 then SortMerge (lt_of ltk) 0%nat else SortQuick (lt_of ltk) 0%nat in
+  let sort := if Z.ltb alg 2 then once else bind once (fun _ => once) in
   match bind (push_all l) (fun _ => sort) empty_world with
   | Ret _ w =>
       let f := fwd_nodes w 0 in
       let o1 := zlp (fwd_vals w 0) ++ zlp (bwd_vals w 0) ++
                 [llen (lists w 0); if forallb (fun n => ref_eqb (nowner (nodes w n)) (Some 0%nat)) f then 1 else 0]%Z in
-      match probe (List.length l) w with
+      let n := List.length l in
+      match bind (handle_obs n) (fun h => bind (remove_handles (picks n)) (fun r => bind (probe n) (fun p => ret (h ++ r ++ p)))) w with
       | Ret o2 _ => Some (o1 ++ o2)
       | _ => None
       end
